@@ -83,6 +83,7 @@ def load_contracts(repo='/repo'):
 
 def export(funcs, repo='/repo', out=None, tags='verif'):
     """run ssaexport for the given function keys; returns parsed JSON"""
+    funcs = sorted({k.split('#')[0] for k in funcs})
     pkgs = sorted({k.split('::')[0] for k in funcs})
     exe = os.path.join(GOVC, 'bin', 'ssaexport')
     env = dict(os.environ)
